@@ -24,7 +24,7 @@ RULE = ("synthetic VCF text (1..3 sample columns, 0..2 PEDIGREE tags incl. tags 
         "(+ a few tables with interleaved chromosomes: model only, spec not applied) x "
         "above_half x tumor_boost through VariantArray.baf_by_ranges and mirrored_baf; the whole chain VCF -> "
         "load_het_snps -> do_call(variants=, purity=) -> baf column; _tumor_boost and rescale_baf on number "
-        "grids. non-trivial = a read with >= 1 record and an existing sample, a BAF with >= 1 heterozygous row "
+        "grids; about 10 % of all cases (every one tagged cli-*) run that whole chain through the command line instead: `cnvkit.py call SEG.cns -v/--vcf VCF -o OUT [-m none|clonal|threshold or left out] [-i/--sample-id NAME] [-n/--normal-id NAME] [--min-variant-depth N, or left out = 20] [-z/--zygosity-freq [F], bare = 0.25] [--purity P]` (4 in 5) or `cnvkit.py export nexus-ogt SEG.cns VCF -o OUT [-i] [-n] [-m/--min-variant-depth N] [-z [F]]` (1 in 5, VCFs with >= 1 record), option order shuffled, the baf / B-Allele Frequency column taken from the table handed to the writer and the written file checked to read back equal to it within 1e-5. non-trivial = a read with >= 1 record and an existing sample, a BAF with >= 1 heterozygous row "
         "inside some range; distinct by hash of the case")
 EXHAUSTIVE = {"quick": False, "thorough": False}
 ASSUMPTIONS = [
@@ -390,6 +390,63 @@ def gen_pipeline(rng, nmax=40):
     return {"op": "vcf_pipeline", "tag": "pipeline", "in": i}
 
 
+def _name_sel(sel, names):
+    """a selector the command line can express: None or a string (a column position becomes that column's name)"""
+    if isinstance(sel, int) and not isinstance(sel, bool):
+        return names[sel] if -len(names) <= sel < len(names) else None
+    return sel
+
+
+def gen_pipeline_cli(rng, nmax=40):
+    """the pipeline case through `cnvkit.py call -v` (or `export nexus-ogt`): the options are the case's parameters,
+    the exact argument vector is part of the case ({seg} {vcf} {out} stand for the scratch files)"""
+    c = gen_pipeline(rng, nmax)
+    i = c["in"]
+    names = i["vcf"]["samples"]
+    i["sid"], i["nid"] = _name_sel(i["sid"], names), _name_sel(i["nid"], names)
+    if i["min_depth"] is None:
+        i["min_depth"] = 20  # "no depth filter" cannot be said on the command line; leaving the option out means 20
+    # `export nexus-ogt` on a VCF without any record raises ValueError in baf_by_ranges (the table has no alt_freq
+    # column and the all-missing answer is built on the wrong index): proposed_fixes/C18-cli-nexus-ogt-empty-vcf.md;
+    # `call` never gets there (`if variants:`), so those VCFs go through `call` only
+    nexus = rng.random() < 0.2 and len(i["vcf"]["records"]) > 0
+    long_ = lambda short, long: long if rng.random() < 0.4 else short
+    groups = []
+    if i["sid"] is not None:
+        groups.append([long_("-i", "--sample-id"), i["sid"]])
+    if i["nid"] is not None:
+        groups.append([long_("-n", "--normal-id"), i["nid"]])
+    if i["min_depth"] != 20 or rng.random() < 0.3:
+        groups.append([long_("-m", "--min-variant-depth") if nexus else "--min-variant-depth", str(i["min_depth"])])
+    if i["zyg_freq"] is not None:
+        if i["zyg_freq"] == 0.25 and rng.random() < 0.6:
+            groups.append([long_("-z", "--zygosity-freq")])  # bare: the parser's `const` is what reaches the code
+        else:
+            groups.append([long_("-z", "--zygosity-freq"), repr(float(i["zyg_freq"]))])
+    if nexus:
+        i["purity"] = None
+        head = ["export", "nexus-ogt", "{seg}", "{vcf}"]
+    else:
+        head = ["call", "{seg}"]
+        groups.append([long_("-v", "--vcf"), "{vcf}"])
+        if i["purity"] is not None:
+            groups.append(["--purity", repr(float(i["purity"]))])
+        r = rng.random()
+        if r < 0.6:
+            groups.append([long_("-m", "--method"), "none"])
+        elif r < 0.75:
+            groups.append([long_("-m", "--method"), "clonal"])
+        elif r < 0.8:
+            groups.append([long_("-m", "--method"), "threshold"])
+        # else: the default method (threshold); the baf column does not depend on the calling method
+    groups.append([long_("-o", "--output"), "{out}"])
+    rng.shuffle(groups)
+    i["cli"] = True
+    i["argv"] = head + [a for g in groups for a in g]
+    c["tag"] = "cli-nexus" if nexus else "cli-pipeline"
+    return c
+
+
 def gen_boost(rng):
     grid = [Fraction(k, 8) for k in range(0, 9)]
     n = rng.randint(1, 12)
@@ -488,6 +545,9 @@ def gen_cases(rng, tier):
         cases.append(gen_boost(rng))
     for _ in range(n["rescale"]):
         cases.append(gen_rescale(rng))
+    # command-line share: ~10 % of all cases, generated last so that the API case stream stays what it was
+    for _ in range({"search": 210, "quick": 480}.get(tier, 3600)):
+        cases.append(gen_pipeline_cli(rng, 500 if rng.random() < 0.01 else 40))
     return cases
 
 
@@ -584,6 +644,88 @@ def _segs_ga(segs):
     return GA.from_rows([tuple(s) for s in segs], columns=["chromosome", "start", "end"])
 
 
+class CliOutputError(Exception):
+    """the command did not write what it computed (never an expected refusal of the model)"""
+
+
+def _same_num(a, b):
+    a, b = float(a), float(b)
+    if math.isnan(a) or math.isnan(b):
+        return math.isnan(a) and math.isnan(b)
+    return abs(a - b) <= 1e-5 * max(1.0, abs(b))
+
+
+def _pipeline_cli(i):
+    """VCF -> per-segment BAF through `cnvkit.py call -v` / `cnvkit.py export nexus-ogt`: write the segment table
+    and the VCF, run the argument vector of the case the way cnvkit.py does, take the table the command hands to
+    its writer (files carry 6 significant digits) and check that the written file reads back equal to it"""
+    import logging
+    import pandas as pd
+    from skgenome import tabio
+    from cnvlib import commands
+    from cnvlib.cmdutil import read_cna
+    from cnvlib.cnary import CopyNumArray as CNA
+    d = tempfile.mkdtemp(dir="/var/tmp", prefix="c18cli")
+    try:
+        paths = {"seg": os.path.join(d, "s.cns"), "vcf": os.path.join(d, "s.vcf"), "out": os.path.join(d, "s.out")}
+        with open(paths["vcf"], "w") as f:
+            f.write(vcf_text(i["vcf"]))
+        segarr = CNA.from_rows([(c, s, e, "-", 0.0, 10) for c, s, e in i["segs"]],
+                               columns=["chromosome", "start", "end", "gene", "log2", "probes"])
+        tabio.write(segarr, paths["seg"])  # integer coordinates, log2 0: the file is exact
+        argv = [a.format(**paths) if a.startswith("{") else a for a in i["argv"]]
+        nexus = argv[:2] == ["export", "nexus-ogt"]
+        captured = []
+
+        class _Tab:
+            def __getattr__(self, name):
+                return getattr(tabio, name)
+
+            def write(self, garr, outfname=None, *a, **k):
+                captured.append(garr.data)
+                return tabio.write(garr, outfname, *a, **k)
+        real_wdf = commands.write_dataframe
+
+        def _wdf(outfname, dframe, *a, **k):
+            captured.append(dframe)
+            return real_wdf(outfname, dframe, *a, **k)
+        saved_tab, quiet = commands.tabio, logging.root.manager.disable
+        commands.tabio, commands.write_dataframe = _Tab(), _wdf
+        logging.disable(logging.CRITICAL)
+        try:
+            args = commands.parse_args(argv)
+            args.func(args)
+        finally:
+            logging.disable(quiet)
+            commands.tabio, commands.write_dataframe = saved_tab, real_wdf
+        if len(captured) != 1 or not os.path.exists(paths["out"]):
+            raise CliOutputError("the command did not write exactly one table to the requested output")
+        tbl = captured[0]
+        if len(tbl) != len(i["segs"]):
+            raise CliOutputError(f"{len(tbl)} output rows for {len(i['segs'])} segments")
+        if nexus:
+            coords = [(str(r[0]), int(r[1]), int(r[2])) for r in tbl.iloc[:, :3].itertuples(index=False)]
+            baf = tbl["B-Allele Frequency"]
+            back = pd.read_csv(paths["out"], sep="\t", dtype={0: str})
+            bcoords = [(str(r[0]), int(r[1]), int(r[2])) for r in back.iloc[:, :3].itertuples(index=False)]
+            bbaf = back.iloc[:, 4] if back.shape[1] == 5 else None
+        else:
+            coords = [(str(c), int(s), int(e)) for c, s, e in zip(tbl["chromosome"], tbl["start"], tbl["end"])]
+            # `if variants:` is False for an empty het table: do_call then adds no baf column at all
+            baf = tbl["baf"] if "baf" in tbl.columns else None
+            back = read_cna(paths["out"]).data
+            bcoords = [(str(c), int(s), int(e)) for c, s, e in zip(back["chromosome"], back["start"], back["end"])]
+            bbaf = back["baf"] if "baf" in back.columns else None
+        if coords != [(c, s, e) for c, s, e in i["segs"]]:
+            raise CliOutputError("output rows are not the segments of the input, in order")
+        if bcoords != coords or (baf is None) != (bbaf is None) or (
+                baf is not None and not all(_same_num(a, b) for a, b in zip(bbaf, baf))):
+            raise CliOutputError("the written file does not read back as the table the command computed")
+        return [float("nan")] * len(tbl) if baf is None else list(baf)
+    finally:
+        shutil.rmtree(d, ignore_errors=True)
+
+
 def run_impl(case):
     from skgenome import tabio
     from cnvlib import cmdutil, call, vary
@@ -609,6 +751,8 @@ def run_impl(case):
     if op == "vcf_mirror":
         va = _va(i["table"])
         return _series(va.mirrored_baf(above_half=i["above"], tumor_boost=i["boost"]))
+    if op == "vcf_pipeline" and i.get("cli"):
+        return _series(_pipeline_cli(i))
     if op == "vcf_pipeline":
         from cnvlib.cnary import CopyNumArray as CNA
         fn = _write_vcf(i["vcf"])
@@ -651,6 +795,8 @@ def to_line(case, impl):
         zf = i.get("zyg_freq")
         i["zyg_freq"] = None if zf is None else [frac(zf), frac(1 - zf)]
     if op == "vcf_pipeline":
+        i.pop("cli", None)
+        i.pop("argv", None)
         p = i.get("purity")
         i["purity"] = None if (p is None or p >= 1.0) else frac(p)
     if "table" in i:
